@@ -44,6 +44,8 @@ ASSUMPTIONS = [
     "use_musical_beat(d) while musical beats are already enabled is a no-op (it warns); histories that would "
     "make the docstrings ambiguous (use_musical_beat() after set_musical_beat_per_ts(custom) in notated "
     "mode; a non-empty dict while already enabled) are not generated",
+    "edits of a part never set a quarter duration that is already in force at a time without a change point "
+    "(documented as redundant and dropped; its interplay with later edits is C01's subject)",
     "values outside [first point, last point] are not compared (the statement quantifies over positions "
     "between the first and last time point)",
 ]
@@ -355,30 +357,87 @@ class MapCheck(object):
             self.exc("quarter-duration-map", ex)
 
 
+def apply_edit(part, tss, cur, ed):
+    """apply one structural edit to the real part and to the description `cur` (returns the new one)"""
+    import partitura.score as S
+
+    cur = dict(cur)
+    k = ed[0]
+    if k == "q":  # set_quarter_duration(t, v): value v in force from t to the next change
+        _, t, v = ed
+        part.set_quarter_duration(t, v)
+        cur["divs"] = sorted([x for x in cur["divs"] if x[0] != t] + [[t, v]])
+    elif k == "ts":  # a further time signature
+        _, t, b, bt = ed
+        o = S.TimeSignature(b, bt)
+        part.add(o, t)
+        ts = sorted(cur["ts"] + [[t, b, bt]])
+        i = ts.index([t, b, bt])
+        tss.insert(i, o)
+        cur["ts"] = ts
+    elif k == "rmts":  # remove the i-th time signature
+        _, i = ed
+        part.remove(tss.pop(i))
+        cur["ts"] = cur["ts"][:i] + cur["ts"][i + 1:]
+    elif k == "m":  # a first measure where there was none
+        _, a, e = ed
+        part.add(S.Measure(number=1), a, e)
+        cur["m"] = [a, e]
+    elif k == "ext":  # a note that moves the last point
+        _, new_last = ed
+        part.add(S.Note("D", 4, id="n%d" % new_last, voice=1), cur["last"], new_last)
+        cur["last"] = new_last
+    else:
+        raise ValueError(ed)
+    return cur
+
+
 def eval_case(case):
     import numpy as np
 
     res = CaseResult(states=1, transitions=0, traces=1)
-    ref = RefMaps(case)
     hist = case.get("hist") or []
+    edits = case.get("edits") or []
     try:
         part, tss = build(case)
     except Exception as ex:  # noqa
         res.fail("build", kind="exception", where=innermost_partitura_frame(ex), observed=exc_text(ex))
         res.outcome = "build-exception"
         return res
-    mode = ModeModel(case["ts"])
-    mc = MapCheck(res, ref, case, "mode=notated")
-    mc.quarter_duration_map(part)
-    mc.pair(part, "q", None, scalars=True)
-    oq = mc.origin_seen
-    mc.pair(part, "b", None, scalars=True)
-    ob = [mc.origin_seen]
+    cur = dict(t0=case["t0"], last=case["last"], divs=case["divs"], ts=case["ts"], m=case.get("m"))
+    calls = 0
+    states = 0
+    oq = None
+    ob = []
+    done = []
+    for k in range(len(edits) + 1):
+        if k:
+            try:
+                cur = apply_edit(part, tss, cur, edits[k - 1])
+            except Exception as ex:  # noqa
+                res.fail("build", kind="exception", where=innermost_partitura_frame(ex), observed=exc_text(ex),
+                         detail="edit %r" % (edits[k - 1],))
+                break
+            done.append(edits[k - 1])
+            calls += 1
+        ref = RefMaps(cur)
+        mc = MapCheck(res, ref, cur, "mode=notated" + (" after edits %r -> %r" % (done, cur) if done else ""))
+        mc.quarter_duration_map(part)
+        mc.pair(part, "q", None, scalars=(k == 0))
+        oq = mc.origin_seen
+        mc.pair(part, "b", None, scalars=(k == 0))
+        ob.append(mc.origin_seen)
+        calls += mc.calls
+        states += 1
+        if res.violations:
+            break
+    mc.calls = 0
+    mode = ModeModel(cur["ts"])
     qvals = None
     if hist and not res.violations:
         xs = np.array([float(t) for t in range(ref.t0, ref.last + 1)])
         qvals = np.asarray(part.quarter_map(xs), dtype=float)
-    states = 1
+    pre = " after edits %r -> %r" % (done, cur) if done else ""
     for k, op in enumerate(hist):
         if res.violations:
             break
@@ -386,17 +445,18 @@ def eval_case(case):
             apply_op(part, op)
         except Exception as ex:  # noqa
             res.fail("beat-mode-switch", kind="exception", where=innermost_partitura_frame(ex), observed=exc_text(ex),
-                     detail="history %r" % (hist[: k + 1],))
+                     detail="history %r%s" % (hist[: k + 1], pre))
             break
         mode.apply(op)
         mc.calls += 1
         states += 1
-        mc.ctx = "mode=%s mus=%r after %r" % ("musical" if mode.flag else "notated", mode.mus, hist[: k + 1])
-        # the per-signature numbers the implementation holds (observable state of the switch)
+        mc.ctx = "mode=%s mus=%r after %r%s" % ("musical" if mode.flag else "notated", mode.mus, hist[: k + 1], pre)
+        # the per-signature numbers the implementation holds (public attribute TimeSignature.musical_beats;
+        # "reset ... to default values" in the docstring of use_notated_beat)
         held = [o.musical_beats for o in tss]
-        if held != mode.mus or bool(part._use_musical_beat) != mode.flag:
+        if held != mode.mus:
             res.fail("beat-mode-switch", expected={"musical": mode.flag, "musical_beats": mode.mus},
-                     observed={"musical": bool(part._use_musical_beat), "musical_beats": held},
+                     observed={"musical_beats": held},
                      where="Part.use_musical_beat/use_notated_beat/set_musical_beat_per_ts", detail=mc.ctx)
             break
         mc.pair(part, "b", list(mode.mus) if mode.flag else None, scalars=False,
@@ -407,11 +467,12 @@ def eval_case(case):
         mc.calls += 2
         if not np.array_equal(qvals, q2):
             res.fail("quarter-independent-of-mode", expected=qvals.tolist(), observed=q2.tolist(), where="Part.quarter_map",
-                     detail="after history %r" % (hist,))
+                     detail="after history %r%s" % (hist, pre))
+    calls += mc.calls
     res.states = states
     res.traces = states
-    res.transitions = mc.calls
-    res.nontrivial = bool(len(case["divs"]) > 1 or len(case["ts"]) > 1 or case.get("m") or hist)
+    res.transitions = calls
+    res.nontrivial = bool(len(case["divs"]) > 1 or len(case["ts"]) > 1 or case.get("m") or hist or edits)
     res.outcome = "zero:q=%s,b=%s" % (
         "-" if oq is None else ("first" if oq == ref.t0 else "m+%d" % (oq - ref.t0)),
         ",".join(sorted({"-" if o is None else ("first" if o == ref.t0 else "m") for o in ob})),
@@ -633,8 +694,70 @@ def gen_edge(scope):
                 yield dict(t0=0, last=last, divs=divs, ts=[[0, b, bt]], m=[0, e], hist=universal_history([[0, b, bt]]), hid="U")
 
 
+def gen_edits(scope):
+    """parts that are edited after their maps were used: a quarter change, a further or a removed time
+    signature, a first measure, a later last point - the maps must follow (nothing may be cached)"""
+    hist = [["M", {}]]
+    L = 5
+    bases = []
+    for t0 in (0, 2):
+        last = t0 + L
+        for divs in ([[0, 2]], [[0, 1], [t0 + 2, 3]]):
+            for ts in ([[t0, 4, 4]], [[t0, 6, 8], [t0 + 3, 3, 4]]):
+                for m in (None, [t0, t0 + 1]):
+                    bases.append(dict(t0=t0, last=last, divs=divs, ts=ts, m=m))
+
+    def alphabet(cur, small):
+        t0, last = cur["t0"], cur["last"]
+        eds = []
+        qpos = (t0, t0 + 1, t0 + 3) if small else tuple(range(max(t0 - 1, 0), last + 2))
+        for t in qpos:
+            for v in ((1, 3) if small else (1, 2, 3)):
+                # setting the value that is already in force at a time without a change point is
+                # documented as redundant (dropped); what a later, earlier-placed change then means
+                # for t belongs to C01, so such edits are not generated here
+                if any(x[0] == t for x in cur["divs"]) or qdur_at(cur["divs"], t) != v:
+                    eds.append(["q", t, v])
+        have = {x[0] for x in cur["ts"]}
+        for t in ((t0 + 1, t0 + 4) if small else range(t0, last + 1)):
+            if t not in have:
+                for b, bt in (((6, 8),) if small else ((3, 4), (6, 8))):
+                    eds.append(["ts", t, b, bt])
+        for i in range(len(cur["ts"])):
+            eds.append(["rmts", i])
+        if cur["m"] is None:
+            eds.append(["m", t0, t0 + 2])
+        eds.append(["ext", last + 2])
+        return eds
+
+    def sim(cur, ed):
+        cur = dict(cur)
+        if ed[0] == "q":
+            cur["divs"] = sorted([x for x in cur["divs"] if x[0] != ed[1]] + [[ed[1], ed[2]]])
+        elif ed[0] == "ts":
+            cur["ts"] = sorted(cur["ts"] + [ed[1:]])
+        elif ed[0] == "rmts":
+            cur["ts"] = cur["ts"][:ed[1]] + cur["ts"][ed[1] + 1:]
+        elif ed[0] == "m":
+            cur["m"] = [ed[1], ed[2]]
+        elif ed[0] == "ext":
+            cur["last"] = ed[1]
+        return cur
+
+    for bi, base in enumerate(bases):
+        small2 = scope == "core"
+        for e1 in alphabet(base, False):
+            yield dict(base, edits=[e1], hist=hist, hid="e%r" % ([e1],))
+        if scope == "core" and bi % 4 != 3:
+            continue
+        for e1 in alphabet(base, small2):
+            c1 = sim(base, e1)
+            for e2 in alphabet(c1, small2):
+                yield dict(base, edits=[e1, e2], hist=hist, hid="e%r" % ([e1, e2],))
+
+
 GENS = [("quarter-tables", gen_quarter), ("signature-tables", gen_ts), ("mixed-changes", gen_mixed),
-        ("beat-mode-histories", gen_modes), ("edge-shapes", gen_edge)]
+        ("beat-mode-histories", gen_modes), ("edited-parts", gen_edits), ("edge-shapes", gen_edge)]
 NBLOCKS = 24
 
 BOUNDS = {
@@ -647,6 +770,10 @@ BOUNDS = {
                      "(coinciding or not) and 2 x 2 at every position quadruple, first measure none/every end",
     "beat-mode-histories": "every history of use_musical_beat(none|one|all)/use_notated_beat/set_musical_beat_per_ts"
                            "(one|other|{}) up to the depth on 48 structures; docstring-ambiguous histories excluded",
+    "edited-parts": "16 base parts (first point 0|2, length 5, 0|1 quarter change, 1|2 signatures, pickup or no first "
+                    "measure); maps evaluated, then 1 or 2 edits (set_quarter_duration at any position incl. existing "
+                    "change points, add/remove a time signature, add a first measure, move the last point), maps "
+                    "re-evaluated after every edit, then default musical beats",
     "edge-shapes": "single-point and two-point parts, no signature, late first signature, measure not at the first "
                    "point, quarter changes before/at the first and at/after the last point, long bars with every "
                    "pickup length",
@@ -656,6 +783,7 @@ CORE_TXT = {
     "signature-tables": "core: divisions {1,2}; 1 change over 4/4 6/8 5/8 3/2, 2 changes over 4/4 6/8 3/2",
     "mixed-changes": "core: divisions q0 {1,2} -> {1,2,3}, meters 4/4 6/8 3/2; 2x2 with two fixed value sequences",
     "beat-mode-histories": "core: depth 3",
+    "edited-parts": "core: every single edit on every base; every pair over a reduced alphabet on 4 bases",
     "edge-shapes": "core: bars up to 14 divisions",
 }
 FULL_TXT = {
@@ -663,6 +791,7 @@ FULL_TXT = {
     "signature-tables": "divisions {1,2,3}; 1 change over all 10 meters, 2 changes over 4/4 6/8 5/8 3/2 9/8",
     "mixed-changes": "q0 {1,2,3} -> {1,2,3,4,6}, meters 4/4 6/8 5/8 3/2 9/8; 2x2 over divisions {1,2,3} and 4/4 6/8 3/2",
     "beat-mode-histories": "depth 4",
+    "edited-parts": "every single edit and every pair of edits over the full alphabet on every base",
     "edge-shapes": "bars up to 36 divisions",
 }
 
